@@ -287,7 +287,9 @@ package db
 //@ // the frontier is walked back one generation at a time: only its highest commits are replaced by their
 //@ // parents, the lower ones are kept
 //@ func (*mergeProcessor).loadComposites
-//@   assert before call#2 loadComposites: arg2 == blockCid && arg0 == mp && exhausted(2)
+//@   assert before call#2 loadComposites: arg2 == blockCid && arg0 == mp && exhausted(2) && arg3 == newMT
+//@   loop 1 every-iteration call#1 loadComposites
+//@   loop 3 every-iteration call#2 add
 //@   assert before call#1 add: res(GetPriority, 2, 0) < mt.headHeight && arg1 == c && arg2 == b && callarg(GetPriority, 2, 0) == b.Delta
 //@   assert before call#2 add: res(GetPriority, 2, 0) >= mt.headHeight && arg2 == res(GetFromNode, 2, 0) && arg1 == link.Cid && res(GetPriority, 1, 0) < mt.headHeight
 //@   assert before call#2 Load: arg2 == box(rangeslice3[rangeindex3+1])
@@ -297,6 +299,7 @@ package db
 //@   assert before call#1 add: arg2 == res(loadBlockFromBlockStore, 1, 0) && callarg(loadBlockFromBlockStore, 1, 1) == arg1
 //@   assert before call#1 loadBlockFromBlockStore: arg1 == rangeslice1[rangeindex1+1]
 //@   assert before call#1 getHeads: arg1 == key
+//@   loop 1 every-iteration call#1 add
 //@   ensures err == nil ==> exhausted(1)
 //@   tags C01 C02 C04
 //@ func (*mergeProcessor).queueComposite
